@@ -1,6 +1,7 @@
 import SekaiProofs.Lemmas.Ante
 import Sekai.Gen.App
 import Sekai.Model.App
+import Sekai.Gen.Ambient
 /-! # C09 — Fees: charged exactly as declared, within bounds; failed work leaves no trace
 
 Theorems about `Sekai.Ante` (the executable model of `ValidateFeeRangeDecorator`, the stock fee deduction,
@@ -344,6 +345,15 @@ def refunded (c : Cfg) (s : State) (i : Nat) (d : String) : Option Nat :=
 example : refunded cfgR sR 1 "ubtc" = some 9 ∧ refunded cfgR sR 1 "ukex" = some 9 := by decide
 
 /-! ### Application wiring (table `Gen.App`) -/
+
+/-- "a failed transaction leaves no trace": the roll-back of a failed transaction (and of every discarded branch: the
+dry-run of a submitted proposal, simulation, CheckTx) restores the key-value store and nothing else, so the claim needs
+the application to keep no state outside the store. `Gen.Ambient.processState` lists every keeper / decorator / handler
+field that can hold mutable data and every package-level variable that a function writes; the only entry is the upgrade
+keeper's handler table (filled once at start-up). -/
+theorem no_state_survives_a_rollback : Sekai.Gen.Ambient.processState =
+    [("x/upgrade/keeper/keeper.go", "Keeper", "upgradeHandlers", "map[string]types.UpgradeHandler")] := by decide +kernel
+
 
 /-- The ante chain in the order `Ante.runTx` applies it: fee range, then deduction, then the poor-network and
 frozen-token filters, then registration of the execution fee; each exactly once. -/
